@@ -59,7 +59,7 @@ Print Assumptions C03_mpsc_fifo.
 Theorem C03_expected_sorted : forall sent, classes_sorted (expected sent) = true.
 Proof. exact expected_sorted. Qed.
 Print Assumptions C03_expected_sorted.
-Theorem C03_expected_stable : forall c sent, c <= 2 -> of_class c (expected sent) = of_class c sent.
+Theorem C03_expected_stable : forall c sent, c <= 3 -> of_class c (expected sent) = of_class c sent.
 Proof. exact expected_stable. Qed.
 Print Assumptions C03_expected_stable.
 
